@@ -80,6 +80,24 @@ Definition D (h : N) (rs : list (N * bool * bool)) : nat :=      (* known calls 
 Definition calls (h : N) (rs : list (N * bool * bool)) : nat :=
   length (filter (fun r => N.eqb h (fst (fst r))) rs).
 
+(* NOT the code: storePack split into two critical sections (pending removed first, index entry added
+   later).  Only used to show that the atomicity of EPack is what the theorems rest on. *)
+Inductive xev :=
+| XE (e : ev)
+| XRemovePending (bs : list N)   (* first half: delete the pack's blobs from pendingBlobs *)
+| XInsertPack (bs : list N).     (* second half: enter the pack into the index *)
+Definition xstep (s : state) (e : xev) : state :=
+  match e with
+  | XE e => step s e
+  | XRemovePending bs =>
+      match take_all bs (packer s) with
+      | Some p' => mk (filter (fun h => negb (mem h bs)) (pend s)) (idx s) p' (tick s) (dupq s) (log s) (res s)
+      | None => s
+      end
+  | XInsertPack bs => mk (pend s) (bs ++ idx s) (packer s) (tick s) (dupq s) (log s) (res s)
+  end.
+Definition xrun (s : state) (evs : list xev) : state := fold_left xstep evs s.
+
 (* ---- cases ---- *)
 Definition lookup (h : N) (l : list (N * N)) : N :=
   match find (fun p => N.eqb h (fst p)) l with Some p => snd p | None => 0 end.
@@ -91,7 +109,11 @@ Inductive case :=
 | CApi (idx0 : list N) (rs : list (N * bool * bool)) (final : list (N * N))
     (* savers run concurrently on a real repository: observed (handle, storeDuplicate, known) per call and
        the index entries per handle after the flush *)
-| CCli (idx0 : list N) (cs : list N) (newblobs : N) (final : list (N * N)).
+| CCli (idx0 : list N) (cs : list N) (newblobs : N) (final : list (N * N))
+| CStress (rounds handles : N) (max_unknown : N) (never_unknown : N).
+    (* index-level stress on the real MasterIndex: per round one uploader does AddPending + StorePack for
+       fresh handles while re-submitters keep calling AddPending for the same handles; observed: the
+       largest number of 'not known' answers any handle got, and how many handles got none *)
     (* one backup run: blob handles referenced by the new snapshot (with multiplicity), number of blobs the
        summary reports as newly added, index entries per handle afterwards *)
 
@@ -120,6 +142,10 @@ Definition oracle_code (c : case) : nat :=
   | CCli idx0 cs newblobs final =>
       if negb (N.eqb newblobs (expected_new idx0 cs)) then 2
       else first_code (map (cli_code idx0 cs final) (nodup_n (idx0 ++ cs ++ map fst final)))
+  | CStress rounds handles maxu never =>
+      if negb (maxu <=? 1) then 2          (* some handle was accepted (answered 'not known') twice *)
+      else if negb (never =? 0) then 3     (* a requested new handle was never accepted *)
+      else 0
   end.
 
 Definition check_C16 (c : case) : bool := Nat.eqb (oracle_code c) 0.
@@ -146,6 +172,7 @@ Definition check_case (c : case) : nat :=
                                  || N.eqb (lookup h final) (N.of_nat (cnt h (idx s)))))
                    (handles_api idx0 rs final)
         then 0%nat else 1%nat
+    | CStress _ _ _ _ => 0%nat
     | CCli idx0 cs newblobs final =>
         let s := model_final idx0 (map (fun h => (h, false)) cs) in
         if forallb (fun h => N.eqb (lookup h final) (N.of_nat (cnt h (idx s)))) (nodup_n (idx0 ++ cs ++ map fst final))
